@@ -1,0 +1,11 @@
+//go:build verif
+
+// Contracts (//@ comments, read by /verif/govc) for package oc. Built only with -tags verif.
+package oc
+
+//@ props C08
+//@ func (*Neighbor).IsEBGPPeer
+//@   requires n != nil
+//@   pure
+//@   modifies nothing
+//@   ensures result == (n.Config.PeerAs != n.Config.LocalAs)
